@@ -39,7 +39,7 @@ def allSome {α} : List (Option α) → Option (List α)
   | none :: _ => none
   | some a :: t => (allSome t).map (a :: ·)
 
-inductive Err | missingArg | keyError | indexError | badRef | valueError
+inductive Err | missingArg | keyError | indexError | badRef | valueError | typeError
   deriving DecidableEq, Repr
 
 /-- `_set_input_args_for_function`:
@@ -93,6 +93,44 @@ def removeDefaults : Dict → List String → Dict × Bool
   | d, k :: ks => match dpop d k with
     | some d' => removeDefaults d' ks
     | none => (d, false)
+
+/-! ### which signature is inspected, which callable is invoked
+
+  The wrapper inspects the object it is handed (`inspect.getfullargspec(self.fun)`, which does NOT follow
+  `__wrapped__`) and later invokes that same object with `**kw`.  Python then binds `kw` against the
+  signature of the invoked callable (`pyBind`): an unknown keyword or a missing parameter without an own
+  default is a TypeError, an absent parameter with an own default silently takes that default. -/
+
+/-- a callable as the wrapper meets it: the signature of the object itself and, for a function decorated
+    with `functools.wraps`, the signature of the decorated function it carries as `__wrapped__` -/
+structure Callable where
+  fn : Nat
+  names : List String
+  dflts : List Val
+  wrapped : Option (List String × List Val)
+  kwnames : List String := []          -- keyword-only parameters (after `*`)
+  kwdflts : Dict := []                 -- `kwonlydefaults`: any subset of them
+  deriving Repr
+
+/-- all parameters of the callable, positional-or-keyword first -/
+def Callable.params (c : Callable) : List String := c.names ++ c.kwnames
+
+/-- the signature `_set_input_args_for_function` reads: the one of the object that will be invoked -/
+def Callable.inspected (c : Callable) : List String × List Val := (c.names, c.dflts)
+
+/-- the variant "look through decorators" (`inspect.unwrap`), kept to state why it is wrong -/
+def Callable.inspectedUnwrapped (c : Callable) : List String × List Val :=
+  match c.wrapped with
+  | some s => s
+  | none => (c.names, c.dflts)
+
+/-- Python's binding of `f(**kw)` for a function with parameters `names` and own defaults `own` -/
+def pyBind (names : List String) (own kw : Dict) : Except Err Dict :=
+  if kw.any fun kv => !names.contains kv.1 then .error .typeError        -- unexpected keyword argument
+  else
+    match allSome (names.map fun p => ((kw.lookup p).or (own.lookup p)).map (p, ·)) with
+    | some bs => .ok bs
+    | none => .error .typeError                                           -- missing required argument
 
 /-! ### `apply_to_batch` (the `vectorize=True` path of `UserFunction.__call__`): one invocation per row
 
@@ -148,6 +186,8 @@ structure Heap where
 inductive Op
   | newDict (d : Dict)                                      -- a dict the user creates
   | wrapFun (fn : Nat) (names : List String) (dflts : List Val)   -- UserFunction(f), f callable
+  | wrapFunKw (fn : Nat) (names : List String) (dflts : List Val) (kwnames : List String) (kwdflts : Dict)
+                                                            -- … f with keyword-only parameters
   | wrapConst (fn : Nat)                                    -- UserFunction(3.0)
   | wrapExplicit (fn : Nat) (params : List String) (dc : Option Nat)  -- UserFunction(f, defaults=…, args=[…])
   | rewrap (r : Nat)                                        -- UserFunction(u); also copy.copy(u)
@@ -189,6 +229,12 @@ def step (h : Heap) : Op → Heap × Out
   | .wrapFun fn names dflts =>
     match alignDefaults names dflts with
     | some d => h.addFresh fn true names d
+    | none => (h, .err .indexError)
+  | .wrapFunKw fn names dflts kwnames kwdflts =>
+    -- self.args = f_args + f_kwonlyargs; the positional defaults align at the end of f_args;
+    -- self.defaults.update(kwonlydefaults)
+    match alignDefaults names dflts with
+    | some d => h.addFresh fn true (names ++ kwnames) (dupdate d kwdflts)
     | none => (h, .err .indexError)
   | .wrapConst fn => h.addFresh fn false [] []
   | .wrapExplicit fn params none => h.addFresh fn true params []
